@@ -156,6 +156,12 @@ def dump(repo: str) -> dict:
         ),
     }
     out["schedules"] = list(schedules.SCHEDULES)
+    # helpers/schedule.py: the states set_state accepts (`get_args(ScheduleState)`) and the ones that switch a slot on
+    from typing import get_args
+    from pyplumio.helpers import schedule as schedule_helper
+    out["schedule_states"] = [str(x) for x in get_args(schedule_helper.ScheduleState)]
+    out["schedule_on_states"] = [str(x) for x in schedule_helper.ON_STATES]
+    out["schedule_off_states"] = [str(x) for x in schedule_helper.OFF_STATES]
     out["setup_frames"] = [
         [int(d.frame_type), d.provides] for d in dev_ecomax.SETUP_FRAME_TYPES
     ]
@@ -419,6 +425,15 @@ def emit_lean(d: dict) -> dict[str, str]:
     )
     body += "end PlumVerif.Gen\n"
     files["Consts.lean"] = body
+    # a file of its own (imported by Props/C18 only): adding it does not invalidate the modules built on Consts
+    files["ScheduleStates.lean"] = (
+        hdr + "namespace PlumVerif.Gen\n\n"
+        "/-- helpers/schedule.py: get_args(ScheduleState), ON_STATES, OFF_STATES -/\n"
+        "def scheduleStates : List String := " + lean_list([lean_str(x) for x in d["schedule_states"]], 5) + "\n"
+        "def scheduleOnStates : List String := " + lean_list([lean_str(x) for x in d["schedule_on_states"]], 5) + "\n"
+        "def scheduleOffStates : List String := " + lean_list([lean_str(x) for x in d["schedule_off_states"]], 5) + "\n\n"
+        "end PlumVerif.Gen\n"
+    )
 
     body = hdr + "namespace PlumVerif.Gen\n\n"
     body += (
